@@ -282,6 +282,82 @@ VP_RANDOM (scalar_int, 1500000, 30000000, "int triples (a,b,t), |a|,|b| < 2^30 (
     c.nt (AD - t >= -1 && AD - t <= 1);
 }
 
+// unsigned element types (Color3c, V2 of unsigned ...: the vector classes forward to these with T = unsigned char /
+// short / int / 64-bit): a difference may not be formed in the wrong direction
+template <class U> static void unsigned_case (vp::Ctx& c, const char* tn)
+{
+    vp::Src&       s   = c.s;
+    const uint64_t MAX = (uint64_t) std::numeric_limits<U>::max ();
+    auto           gu  = [&] () -> uint64_t {
+        switch (s.below (4))
+        {
+            case 0: return s.below (9);
+            case 1: return MAX - s.below (9);
+            case 2: return (uint64_t) s.bits (64) & MAX;
+            default: return s.below (1001) & MAX;
+        }
+    };
+    uint64_t A = gu (), B, T;
+    switch (s.below (4))
+    {
+        case 0:
+            B = A;
+            T = gu ();
+            break;
+        case 1:
+        case 2:
+        {
+            T = s.coin () ? s.below (9) : (s.below (100001) & MAX);
+            bool up = s.coin ();
+            if (up)
+                B = (A <= MAX - T) ? A + T : A;
+            else
+                B = (A >= T) ? A - T : A;
+            int nudge = (int) s.range (-1, 1);
+            if (nudge < 0 && T > 0) --T;
+            if (nudge > 0 && T < MAX) ++T;
+            break;
+        }
+        default:
+            B = gu ();
+            T = gu ();
+            break;
+    }
+    U a = (U) A, b = (U) B, t = (U) T;
+    VP_NOTE (c, tn << " a=" << A << " b=" << B << " t=" << T);
+    uint64_t AD = A > B ? A - B : B - A;
+    c.label (A < B ? 0 : (A > B ? 1 : 2));
+    VP_REQUIRE (c, IM::equalWithAbsError (a, b, t) == (AD <= T), "unsigned-equalWithAbsError", tn << " equalWithAbsError(" << A << "," << B << "," << T << ") = " << IM::equalWithAbsError (a, b, t) << " but |a-b| = " << AD);
+    VP_REQUIRE (c, IM::equalWithAbsError (b, a, t) == (AD <= T), "unsigned-equalWithAbsError", tn << " equalWithAbsError(" << B << "," << A << "," << T << ") = " << IM::equalWithAbsError (b, a, t) << " but |a-b| = " << AD);
+    {
+        uint64_t e = s.below (4);
+        if (A == 0 || e <= MAX / A)
+        {
+            VP_REQUIRE (c, IM::equalWithRelError (a, b, (U) e) == (AD <= e * A), "unsigned-equalWithRelError", tn << " equalWithRelError(" << A << "," << B << "," << e << ") = " << IM::equalWithRelError (a, b, (U) e) << " but |a-b| = " << AD);
+        }
+    }
+    // cmp / cmpt / equal / iszero are defined through a - b and abs(): signed and floating-point types only, not asserted here
+    {
+        uint64_t lo = std::min (A, B), hi = std::max (A, B), X = s.coin () ? gu () : (s.coin () ? lo : hi);
+        uint64_t want = X < lo ? lo : (X > hi ? hi : X);
+        VP_REQUIRE (c, (uint64_t) IM::clamp ((U) X, (U) lo, (U) hi) == want, "unsigned-clamp", tn << " clamp(" << X << "," << lo << "," << hi << ") = " << (uint64_t) IM::clamp ((U) X, (U) lo, (U) hi));
+    }
+    c.nt (AD <= T ? T - AD <= 1 : AD - T <= 1);
+}
+
+VP_RANDOM (scalar_unsigned, 800000, 16000000, "unsigned char / unsigned short / unsigned int / 64-bit unsigned triples (a,b,t) over the whole range of the type (near 0, near max, uniform, small): equal / tie |a-b| == t / tie +-1 / independent, both argument orders: equalWithAbsError == (|a-b| <= t) and equalWithRelError == (|a-b| <= e*a) (e = 0..3, e*a representable) by exact 64-bit arithmetic, clamp (cmp / cmpt / equal / iszero are defined through a - b and are not asserted for unsigned types); non-trivial = |a-b| within 1 of t")
+{
+    switch (c.s.below (4))
+    {
+        case 0: unsigned_case<unsigned char> (c, "unsigned char"); c.label (3); break;
+        case 1: unsigned_case<unsigned short> (c, "unsigned short"); c.label (4); break;
+        case 2: unsigned_case<unsigned int> (c, "unsigned int"); c.label (5); break;
+        default: unsigned_case<uint64_t> (c, "uint64_t"); c.label (6); break;
+    }
+}
+VP_LABELS (scalar_unsigned, "a_below_b", "a_above_b", "a_equals_b", "unsigned_char", "unsigned_short", "unsigned_int", "uint64")
+VP_REQUIRE_LABELS (scalar_unsigned, "a_below_b", "a_above_b", "a_equals_b", "unsigned_char", "unsigned_short", "unsigned_int", "uint64")
+
 // sinx_over_x (named in the anchors): sin(x)/x, 1 near 0
 template <class T> static void sinx_case (vp::Ctx& c, const char* tn)
 {
